@@ -207,6 +207,13 @@ def main():
             exc = type(e).__name__
             rec["msg"] = str(e)[:200]
             rec["mro"] = [k.__name__ for k in type(e).__mro__]
+        if exc is None and c.get("readback"):
+            # a valid call at the boundary: what was written must be readable back
+            try:
+                rb = c["readback"]
+                rec["readback"] = fs(resolve(m, rb["path"])(*[val(a) for a in rb.get("args", [])]))
+            except BaseException as e:   # noqa
+                rec["readback"] = "raised " + type(e).__name__ + ": " + str(e)[:120]
         try:
             after = ob(m)
             rec["same"] = (after == before)
